@@ -573,11 +573,15 @@ def support_is_union(rs, sups):
 def concat_operands(nap, tier):
     """complete small space of operand lists: class x row shape x lengths x time layout x support layout"""
     out = []
-    layouts = ["sequential", "touching", "overlap", "reversed", "interleaved"]
+    layouts = ["sequential", "touching", "overlap", "reversed", "interleaved", "same", "last_off", "first_off"]
     sup_layouts = ["own", "shared", "touching"]
     for tail in [(), (2,), (1,), (2, 2)]:
-        for lens in [(2,), (0,), (2, 3), (1, 1), (0, 2), (2, 0), (1, 0), (0, 0), (3, 1, 2), (2, 0, 1), (1, 2, 0)]:
+        for lens in [(2,), (0,), (2, 3), (1, 1), (0, 2), (2, 0), (1, 0), (0, 0), (3, 1, 2), (2, 0, 1), (1, 2, 0), (2, 2, 2), (2, 2), (1, 1, 1)]:
             for lay in layouts:
+                # equal-length operands with (partly) identical time axes: the non-time-axis forms may return a time series
+                # only when EVERY operand shares the time axis
+                if (lay in ("same", "last_off", "first_off")) != (lens in [(2, 2, 2), (2, 2), (1, 1, 1)]):
+                    continue
                 for sl in sup_layouts:
                     if len(lens) == 1 and (lay != "sequential" or sl != "own"):
                         continue
@@ -595,6 +599,12 @@ def concat_operands(nap, tier):
                             pos += 2 * U * max(n - 2, 0) if n else 0
                         elif lay == "reversed":
                             starts.append(-i * 2 * U * 6)
+                        elif lay == "same":
+                            starts.append(0)
+                        elif lay == "last_off":
+                            starts.append(U if i == len(lens) - 1 else 0)
+                        elif lay == "first_off":
+                            starts.append(U if i == 0 else 0)
                         else:                            # interleaved: shifted by one half step
                             starts.append(i * U)
                     ops = []
@@ -703,8 +713,8 @@ def run_concat(nap, res, tier, operand_lists=None, tag="concat"):
             r = got[1]
             if not same_values(raw(nap, r), e):
                 viol(res, {"op": "concatenate_family", "part": pk or "values_other_axis"}, "result differs from NumPy's on the raw arrays (shape %s instead of %s)" % (raw(nap, r).shape, e.shape), inp)
-            elif is_nap(nap, r) and (ticks_of(r) != ticks_of(ops[0]) or sup_of(r) != sup_of(ops[0])):
-                viol(res, {"op": "concatenate_family", "part": pk or "time_axis_other_axis"}, "time series result does not carry the operand's timestamps / support", inp)
+            elif is_nap(nap, r) and any(is_nap(nap, o) and (ticks_of(r) != ticks_of(o) or sup_of(r) != sup_of(o)) for o in ops):
+                viol(res, {"op": "concatenate_family", "part": pk or "time_axis_other_axis"}, "time series result does not carry the timestamps / support of every time-series operand", inp)
         if len(res.samples) < 5 and along_time and len(ops) == 2 and got[0] == "ok" and is_nap(nap, got[1]) and ops[0].shape[0] and ops[1].shape[0]:
             res.sample({"concat": inp["function"], "t": inp["t"], "sup": inp["sup"], "result_t": ticks_of(got[1]), "result_sup": sup_of(got[1])})
 
